@@ -217,31 +217,41 @@ func fmtErrorLocationBodyLine(isNativeModule bool, moduleName string, lineNum in
 //	如果代码不为空：
 //	   ^
 func fmtErrorSourceLineWithParser(p *syntax.Parser, cursorIdx int, withCursorMark bool) string {
+	// ensure the cursor locates inside the source (or at its end)
+	if cursorIdx < 0 {
+		cursorIdx = 0
+	}
+	if srcLen := len(p.GetSource()); cursorIdx > srcLen {
+		cursorIdx = srcLen
+	}
 	startIdx := cursorIdx
 	endIdx := startIdx
 	// append EOF to source to avoid index exceed exception
 	sourceT := append(p.GetSource(), 0)
-	for sourceT[startIdx] == syntax.RuneCR || sourceT[startIdx] == syntax.RuneLF {
+	isLineBreak := func(ch rune) bool {
+		return ch == syntax.RuneCR || ch == syntax.RuneLF
+	}
+	// a cursor on line-break chars belongs to the line before them
+	for startIdx > 0 && isLineBreak(sourceT[startIdx]) {
 		startIdx -= 1
 	}
-	// find prev until meeting first CR/LF
-	for startIdx > 0 {
-		if sourceT[startIdx] == syntax.RuneCR || sourceT[startIdx] == syntax.RuneLF {
-			startIdx += 1
-			// skip indent chars
-			for sourceT[startIdx] == syntax.RuneSP || sourceT[startIdx] == syntax.RuneTAB {
-				startIdx += 1
-			}
-			break
-		}
+	// find the start of line: the first char after previous CR/LF (or the start of source)
+	for startIdx > 0 && !isLineBreak(sourceT[startIdx-1]) {
 		startIdx -= 1
+	}
+	// skip indent chars
+	for sourceT[startIdx] == syntax.RuneSP || sourceT[startIdx] == syntax.RuneTAB {
+		startIdx += 1
 	}
 	// find next until meeting first CR/LF (or the EOF mark appended above)
 	for endIdx < len(sourceT)-1 {
-		if sourceT[endIdx] == syntax.RuneCR || sourceT[endIdx] == syntax.RuneLF {
+		if isLineBreak(sourceT[endIdx]) {
 			break
 		}
 		endIdx += 1
+	}
+	if endIdx < startIdx {
+		endIdx = startIdx
 	}
 
 	// get relative cursor offset (notice one Chinese char counts for 2 unit offsets)
@@ -278,8 +288,12 @@ func fmtErrorMessageLine(code int, errName string, errMessage string) string {
 }
 
 func calcCursorOffset(text string, col int) int {
+	// the cursor may locate inside the (stripped) indents or at the end of line
 	if col < 0 {
-		return col
+		col = 0
+	}
+	if textLen := len([]rune(text)); col > textLen {
+		col = textLen
 	}
 	widthBorders := []int32{
 		126, 159, 687, 710, 711, 727, 733, 879, 1154, 1161,
